@@ -14,18 +14,31 @@ def daysFromCivil (y : Int) (m d : Nat) : Int :=
   let doe : Int := yoe * 365 + yoe / 4 - yoe / 100 + doy
   era * 146097 + doe - 719468
 
-/-- inverse of `daysFromCivil` -/
+/-- day of a 400-year era (0..146096) to (year of era 0..399, day of year 0..365); years of
+    the era start on 1 March.  Staged: century, 4-year cycle, year. -/
+def yoeDoy (doe : Int) : Int × Int :=
+  let c : Int := min (doe / 36524) 3
+  let doc : Int := doe - c * 36524
+  let q : Int := min (doc / 1461) 24
+  let doq : Int := doc - q * 1461
+  let yr : Int := min (doq / 365) 3
+  (c * 100 + q * 4 + yr, doq - yr * 365)
+
+/-- day of a March-based year to (month index from March 0..11, day of month 1..31) -/
+def monthDay (doy : Int) : Int × Int :=
+  let mp : Int := (5 * doy + 2) / 153
+  (mp, doy - (153 * mp + 2) / 5 + 1)
+
+/-- inverse of `daysFromCivil` (proved in Proofs/Date.lean) -/
 def civilFromDays (z0 : Int) : Int × Nat × Nat :=
   let z : Int := z0 + 719468
   let era : Int := z / 146097
   let doe : Int := z - era * 146097
-  let yoe : Int := (doe - doe / 1460 + doe / 36524 - doe / 146096) / 365
-  let y : Int := yoe + era * 400
-  let doy : Int := doe - (365 * yoe + yoe / 4 - yoe / 100)
-  let mp : Int := (5 * doy + 2) / 153
-  let d : Int := doy - (153 * mp + 2) / 5 + 1
-  let m : Int := if mp < 10 then mp + 3 else mp - 9
-  (if m ≤ 2 then y + 1 else y, m.toNat, d.toNat)
+  let yd := yoeDoy doe
+  let md := monthDay yd.2
+  let y : Int := yd.1 + era * 400
+  let m : Int := if md.1 < 10 then md.1 + 3 else md.1 - 9
+  (if m ≤ 2 then y + 1 else y, m.toNat, md.2.toNat)
 
 def isLeapYear (y : Int) : Bool := (y % 4 == 0 && y % 100 != 0) || y % 400 == 0
 
